@@ -735,11 +735,16 @@ fn check(prop: &str, tier: &str, verif_seed: u64, runs_override: Option<u64>, jo
         println!("{}", l);
     }
     println!("mdns-sim {}: {} runs + {} store histories, {} distinct non-trivial, {} model states, {} violation signature(s), {} known, {:.1}s ({:.0} runs/s)", prop, tally.runs, tally.store_histories, distinct.len(), states.len(), violations, known_hits, wall, tally.runs as f64 / wall);
+    if violations > 0 {
+        // a verified, replayable violation stands on its own (a spinning thread ends its worker's
+        // batch early, so coverage is legitimately small then)
+        return 1;
+    }
     if distinct.len() < 20 {
         eprintln!("harness error: insufficient coverage ({} distinct non-trivial runs)", distinct.len());
         return 2;
     }
-    if violations > 0 { 1 } else { 0 }
+    0
 }
 
 fn merge(a: &mut Tally, b: Tally) {
